@@ -67,11 +67,13 @@ def _long_work(units):
     from ..ref import parse as rp
 
     out = {"cov": {}, "viol": [], "outcomes": [], "samples": [], "known": {}}
-    probes = [{"uid": u} for u in (1, "1", 7, "x", 2.5)]
+    probes = [{"uid": u, "f": f} for u, f in ((1, 0), ("1", 1), (7, 2), ("x", 11), (2.5, 39))]
     asts = {}
 
-    def expect_ok(ev, i, hist):
-        a = asts.setdefault(i, rp.parse(long_text(i)))
+    def expect_ok(ev, i, hist, text=None):
+        if len(asts) > 64:
+            asts.clear()
+        a = asts.setdefault(text or i, rp.parse(text or long_text(i)))
         for x in probes:
             got = impl.call(ev, x)
             why = oracle.agree(got, oracle.expected(a, x))
@@ -85,6 +87,65 @@ def _long_work(units):
         return True
 
     for period, rounds, nev in units:
+        if rounds == "ladder":
+            # n consecutive REJECTED recompiles (late errors: all nodes were already built) for every n = 1..K, each followed
+            # by a valid recompile, a fresh construction and a recompile of a second evaluator: state that accumulates over
+            # failures (counters, budgets, partially filled tables) must not leak into the next successful compile
+            (branches, which), K = period, nev
+            body = " else ".join(f'if f == {j} {{ return "r{j}" weighted 1, "s{j}" weighted 2 }}' for j in range(branches))
+            bad_texts = [f'def exp {{ salt: "L" splitters: uid {body} @ }}', f'def exp {{ salt: "L" splitters: uid {body} else {{ return "z" weighted }} }}',
+                         f'def class {{ salt: "L" splitters: uid {body} }}', f'def exp {{ salt: "L" splitters: uid {body} }} def', f'def exp {{ salt: "L" splitters: uid {body} else {{ return "unterminated weighted 1 }} }}']
+
+            def big(i):  # a VALID text as large as the rejected one (the corrected publication)
+                return f'def exp {{ salt: "L{i}" splitters: uid {body} else {{ return "z{i}" weighted 1, "y{i}" weighted {1 + i % 3} }} }}'
+
+            ev, ev2 = impl.ExperimentEvaluator(long_text(2000)), impl.ExperimentEvaluator(long_text(2001))
+            cur, step, ok = 2000, 0, True
+            for bad_text in bad_texts[which : which + 1]:
+                for n in list(range(1, K + 1)) + [4 * K]:
+                    for j in range(n):
+                        try:
+                            with quiet():
+                                ev.recompile(bad_text)
+                            raised = False
+                        except Exception:  # noqa
+                            raised = True
+                        out["cov"]["transitions"] = out["cov"].get("transitions", 0) + 1
+                        if not raised:
+                            out["cov"]["violating_cases"] = out["cov"].get("violating_cases", 0) + 1
+                            out["viol"].append({"kind": "life:long", "period": [branches, which], "steps": "ladder", "evaluators": K, "text_index": cur,
+                                                "why": f"an invalid text ({branches} branches, late error) was accepted by recompile on attempt {j + 1} of {n}"})  # fmt: skip
+                            ok = False
+                            break
+                    if ok and (n % 7 == 0) and not expect_ok(ev, cur, (branches, f"ladder of {n} rejected recompiles", K)):
+                        ok = False
+                    if not ok:
+                        break
+                    step += 1
+                    nxt = 3000 + step
+                    for what, fn, txt in (("recompile", lambda: ev.recompile(big(nxt)), big(nxt)), ("construction", lambda: impl.ExperimentEvaluator(long_text(nxt)), None),
+                                          ("recompile of another evaluator", lambda: ev2.recompile(big(nxt + 1)), big(nxt + 1)), ("recompile", lambda: ev.recompile(long_text(nxt)), None)):
+                        try:
+                            with quiet():
+                                r = fn()
+                        except Exception as e:  # noqa
+                            out["cov"]["violating_cases"] = out["cov"].get("violating_cases", 0) + 1
+                            out["viol"].append({"kind": "life:long", "period": [branches, which], "steps": "ladder", "evaluators": K, "text_index": nxt,
+                                                "why": f"after {n} consecutive rejected recompiles of an invalid text ({branches} branches, late error) the {what} from a VALID text raised {type(e).__name__}: {str(e)[:120]}"})  # fmt: skip
+                            ok = False
+                            break
+                        out["cov"]["transitions"] = out["cov"].get("transitions", 0) + 1
+                        target = r if what == "construction" else (ev if what == "recompile" else ev2)
+                        if not expect_ok(target, nxt, (branches, f"ladder of {n} rejected recompiles, then {what}", K), text=txt):
+                            ok = False
+                            break
+                    cur = nxt
+                    if not ok:
+                        break
+                if not ok:
+                    break
+            out["outcomes"].append(f"ladder:{branches}:{ok}")
+            continue
         if rounds == "bulk":
             # many distinct units on ONE evaluator, then a recompile to other salt / weights / labels, then the same
             # units again (result caches that survive a recompile); period = number of units
@@ -168,7 +229,8 @@ def _pairs_work(units):
         ccl, ocl = rp.classify(cur), rp.classify(other)
         if ccl[0] != "accept":
             continue
-        if ocl[0] == "ambiguous":
+        if ocl[0] == "ambiguous" or any(0xD800 <= ord(ch) <= 0xDFFF for ch in other):
+            # (a text holding a lone surrogate has no UTF-8 form: outside the language, the fresh constructor is the model)
             fresh = impl.build(other)  # documentation silent: whatever a fresh constructor does is the model
             want_ok = fresh[0] == "ok"
             want_ast = None
@@ -232,6 +294,11 @@ def collision_pairs(res):
              ('"p\rq"', '"p\r q"'), ('"p\u2028q"', '"p\x85q"'), ('"Pq"', '"pq"'), ('"q "', '"q"'), ("'s'", '"s"'), ('"a\tb"', '"a b"'), ('"é"', '"e\u0301"'),
              ('"home page"', '"homepage"'), ('"a b"', '"ab"'), ('" "', '""'), ('"x\ty"', '"xy"'), ('"q"', "'q '"), ('"it\'s"', '"its"'), ('"pricing\'"', '"pricing"'),
              ('"1"', "1"), ("1", "1.0"), ('"http://old.example/a"', '"http://old.example/a'), ('"x//y"', '"x//y'), ('"p\x0cq"', '"p\x0cq')]
+    # texts that collide under a LOSSY ENCODING of the source (errors="replace" / "ignore" / charref / backslash / name escapes,
+    # ASCII or Latin-1 targets) or under a Unicode normalisation / case folding of it
+    twins += [('"ready?"', '"ready\ud83d"'), ('"ready"', '"ready\ud83d"'), ('"ready?"', '"ready\udce9"'), ('"é"', '"?"'), ('"日"', '"?"'), ('"日"', '"本"'), ('"é"', '"&#233;"'),
+              ('"é"', '"\\xe9"'), ('"é"', '"\\N{LATIN SMALL LETTER E WITH ACUTE}"'), ('"é"', '""'), ('"日本"', '""'), ('"ﬁ"', '"fi"'), ('"Å"', '"Å"'), ('"ｘ"', '"x"'),
+              ('"ß"', '"ss"'), ('"İ"', '"i̇"'), ('"x²"', '"x2"'), ('"a\u00a0b"', '"a b"'), ('"a\u200bb"', '"ab"'), ('"\ufeffa"', '"a"'), ('"a\x00"', '"a"'), ('"a\x00b"', '"a"')]
     for a, b in twins:
         units.append((f"twin:{a}|{b}", T.format(a), T.format(b)))
         units.append((f"twin:{b}|{a}", T.format(b), T.format(a)))
@@ -252,13 +319,16 @@ def long_histories(res, tier):
     periods = [1, 2, 3, 5, 8, 9, 15, 16, 17, 31, 32, 33, 63, 64, 65, 100, 127, 128, 129, 130, 257, 300] + ([255, 256, 257, 300, 511, 512, 513] if tier == "thorough" else [])
     units = [(p, 3, n) for p in periods for n in (1, 2)]
     units += [(n, "bulk", 1) for n in ([10, 300, 5000, 10000, 70000, -300, -70000] + ([140000, 300000, -140000] if tier == "thorough" else []))]
+    K = 32 if tier == "quick" else 96
+    units += [((b, which), "ladder", K if b < 40 else K // 2) for b in (1, 3, 12, 40) for which in range(5)]
     for w in pmap(_long_work, units, chunk=1, inline_ok=False):
         res.merge_worker(w)
     res.set("long_history_periods", periods)
+    res.set("rejection_ladders", {"branches": [1, 3, 12, 40], "max_consecutive_rejections": K, "plus": 4 * K})
 
 
 def replay_long(data):
-    r = _long_work([(data["period"], "bulk" if data.get("steps") == "bulk" else 3, data["evaluators"])])
+    r = _long_work([(tuple(data["period"]) if isinstance(data["period"], list) else data["period"], data["steps"] if data.get("steps") in ("bulk", "ladder") else 3, data["evaluators"])])
     return bool(r["viol"]), (r["viol"][0]["why"] if r["viol"] else "long history behaves like the model")
 
 
